@@ -60,11 +60,11 @@ class _ParseSpec(Spec):
                 out.append(self.job(s))
         # G1-Sigma: all documents of length n over small Markdown-significant alphabets
         if tier == "quick":
-            for name, n, split in (("emphasis", 5, 1), ("links", 4, 1), ("containers", 4, 1)):
+            for name, n, split in (("emphasis", 5, 2), ("links", 4, 1), ("containers", 4, 1)):
                 for s in docs.sigma_shards(name, n, split):
                     out.append(self.job(s, budget=200.0))
         else:
-            for name, n, split in (("emphasis", 7, 2), ("links", 6, 2), ("containers", 6, 2), ("leaf", 5, 1)):
+            for name, n, split in (("emphasis", 7, 4), ("links", 6, 3), ("containers", 6, 3), ("leaf", 5, 2)):
                 for s in docs.sigma_shards(name, n, split):
                     out.append(self.job(s, budget=900.0))
         if self.prop == "C04":
